@@ -215,25 +215,30 @@ fn static_claims(obs: &mut Obs) -> R {
     }
     obs.sample(json!({"files_scanned": files.len()}));
     // every public value type is Send + Sync: a probe package holding one `assert_send_sync::<T>()` per type is type-checked now
-    obs.eval();
-    let out = Command::new("cargo")
-        .args(["check", "--release", "-q"])
-        .current_dir(harness_dir().join("sendsync"))
-        .env("CARGO_TARGET_DIR", harness_dir().join("target-cfg-sendsync"))
-        .env("CARGO_NET_OFFLINE", "true")
-        .output()
-        .map_err(|e| Fail { sig: "harness:cargo".into(), msg: format!("{}", e) })?;
-    let err = String::from_utf8_lossy(&out.stderr).to_string();
-    if !out.status.success() {
-        let relevant: Vec<&str> = err.lines().filter(|l| l.contains("cannot be sent between threads") || l.contains("cannot be shared between threads") || l.starts_with("error")).take(6).collect();
-        if err.contains("cannot be sent between threads safely") || err.contains("cannot be shared between threads safely") {
-            return fail("C18:static:not-send-sync", format!("a public value type is not Send + Sync: {}", relevant.join(" | ")));
+    // (once per buildable feature set: a cfg-dependent field type can make a type !Send in one configuration only)
+    for (cfg, flags) in [("no_std+alloc", &[][..]), ("std", &["--features", "std"][..]), ("std+serialize", &["--features", "std,serialize"][..])] {
+        obs.eval();
+        let out = Command::new("cargo")
+            .args(["check", "--release", "-q"])
+            .args(flags)
+            .current_dir(harness_dir().join("sendsync"))
+            .env("CARGO_TARGET_DIR", harness_dir().join("target-cfg-sendsync"))
+            .env("CARGO_NET_OFFLINE", "true")
+            .output()
+            .map_err(|e| Fail { sig: "harness:cargo".into(), msg: format!("{}", e) })?;
+        let err = String::from_utf8_lossy(&out.stderr).to_string();
+        if !out.status.success() {
+            let relevant: Vec<&str> = err.lines().filter(|l| l.contains("cannot be sent between threads") || l.contains("cannot be shared between threads") || l.starts_with("error")).take(6).collect();
+            if err.contains("cannot be sent between threads safely") || err.contains("cannot be shared between threads safely") {
+                return fail(format!("C18:static:not-send-sync:{}", cfg), format!("with feature set {} a public value type is not Send + Sync: {}", cfg, relevant.join(" | ")));
+            }
+            return fail("harness:sendsync-probe", format!("the Send/Sync probe does not compile with feature set {} for another reason (API change?): {}", cfg, relevant.join(" | ")));
         }
-        return fail("harness:sendsync-probe", format!("the Send/Sync probe does not compile for another reason (API change?): {}", relevant.join(" | ")));
+        obs.nontrivial(fnv64(cfg.as_bytes()));
     }
     let n = std::fs::read_to_string(harness_dir().join("sendsync/src/lib.rs")).map(|s| s.matches("assert_send_sync::<").count() as u64).unwrap_or(0);
-    obs.evals_add(n);
-    obs.sample(json!({"send_sync_types_type_checked": n}));
+    obs.evals_add(3 * n);
+    obs.sample(json!({"send_sync_types_type_checked": n, "feature_sets": 3}));
     // and the registry is really shared: read it from several threads
     let ids: Vec<u16> = (0..4u16).map(|i| 0x1301 + i).collect();
     let names: Vec<Option<&'static str>> = std::thread::scope(|s| ids.iter().map(|id| s.spawn(move || TlsCipherSuite::from_id(*id).map(|c| c.name))).collect::<Vec<_>>().into_iter().map(|h| h.join().unwrap()).collect());
